@@ -1088,6 +1088,10 @@ func (am *AllocatorManager) GetMaxLocalTSO(ctx context.Context) (*pdpb.Timestamp
 	if err != nil {
 		return nil, err
 	}
+	// A Global TSO generation in flight does not synchronize with an allocator that starts meanwhile and
+	// may answer above the maximum collected here: wait for it, and keep the next one out until this is done.
+	globalAllocator.(*GlobalTSOAllocator).syncMu.Lock()
+	defer globalAllocator.(*GlobalTSOAllocator).syncMu.Unlock()
 	if len(clusterDCLocations) > 0 {
 		if err := globalAllocator.(*GlobalTSOAllocator).SyncMaxTS(ctx, clusterDCLocations, maxTSO, false); err != nil {
 			return nil, err
